@@ -855,7 +855,7 @@ def _mat_text(rng, M, fmt):
     return "%d %d %d\n" % (m, n, len(tr)) + "".join("%d %d %d\n" % t for t in tr)
 
 
-def cliverdict_lines(rng, tool, nvariants, count, alpha, maxm, maxn, maxcells, structured_ternary=None):
+def cliverdict_lines(rng, tool, nvariants, count, alpha, maxm, maxn, maxcells, structured_ternary=None, variants=None, tool_id=None):
     """cases `tool variant infmt nin bytes..` for one tool: random small matrices over `alpha` within the size the
     definition-level oracle decides, a third of them structured (network / SP / sums) when structured_ternary is given"""
     import vlib
@@ -874,10 +874,17 @@ def cliverdict_lines(rng, tool, nvariants, count, alpha, maxm, maxn, maxcells, s
             M = vlib.rand_matrix(rng, m, n, alpha, 2 + rng.below(7), 10)
         fmt = rng.below(2)
         b = [ord(c) for c in _mat_text(rng, M, fmt)]
-        out.append("%d %d %d %d %s" % (tool, rng.below(nvariants), fmt, len(b), " ".join(map(str, b))))
+        v = rng.choice(variants) if variants else rng.below(nvariants)
+        out.append("%d %d %d %d %s" % (tool if tool_id is None else tool_id, v, fmt, len(b), " ".join(map(str, b))))
     return out
 
 
+CLISUB_CODES = {1: "malformed record", 370: "tool failed on a well-formed matrix file",
+                371: "written submatrix file is unreadable or not a submatrix of the input",
+                372: "written submatrix is not a violator of the required kind",
+                373: "no violating submatrix written although the matrix does not have the property",
+                374: "a violating submatrix written although the matrix has the property",
+                375: "written reduced submatrix is not the irreducible remainder of the matrix"}
 CLIVERDICT_CODES = {1: "malformed record", 350: "tool failed on a well-formed matrix file",
                     351: "tool printed no verdict line, or a positive and a negative one",
                     352: "the tool's verdict contradicts the definition", 353: "verdict line although the input text is malformed"}
